@@ -10,6 +10,7 @@ import (
 	"bytes"
 	"encoding/json"
 	"fmt"
+	amino "github.com/tendermint/go-amino"
 
 	abci "github.com/tendermint/tendermint/abci/types"
 	"github.com/tendermint/tendermint/crypto/merkle"
@@ -85,6 +86,9 @@ func newKVApp(db *crashDB, nstores int, keepRecent, keepEvery int64) (*kvApp, er
 	}
 	return a, nil
 }
+
+// kvCdc decodes the pair list a /subspace query returns (amino, no registered types involved)
+var kvCdc = amino.NewCodec()
 
 // ---------------------------------------------------------------------------------------------
 // program
@@ -176,6 +180,12 @@ func genC14(t *rapid.T, tier string) interface{} {
 				q.St = -1
 			case 1:
 				q.Path = "nosuchpath"
+			case 2, 3, 4:
+				// all pairs under a prefix: a used key, a used key cut short, or one byte
+				q.Path, q.Prove = "subspace", false
+				if k := unhex(q.K); len(k) > 1 && rapid.Bool().Draw(t, "qcut") {
+					q.K = hx(k[:1])
+				}
 			}
 			s.Q = q
 		}
@@ -340,6 +350,86 @@ func execC14(prog interface{}, c *Case) *Violation {
 					return violf(ffSig, "%s panicked: %v", desc, res.pv)
 				}
 				return violf("C14/query-panic", "%s panicked: %v", desc, res.pv)
+			}
+			if storeName != "nosuchstore" && q.Path == "subspace" {
+				h := q.H
+				if h == 0 {
+					h = latest
+				}
+				var got []stypes.KVPair
+				if len(resp.Value) > 0 {
+					if err := kvCdc.UnmarshalBinaryLengthPrefixed(resp.Value, &got); err != nil {
+						return violf("C14/subspace-undecodable", "%s: value does not decode as a list of pairs: %v", desc, err)
+					}
+				}
+				// known finding (pinned by the shipped TestIAVLStoreQuery): /subspace ignores the height and lists the
+				// working tree, which in posmint also holds the uncommitted writes of the block in progress
+				const subSig = "C14/subspace-reads-working-tree"
+				sameAs := func(m flatKV) bool {
+					var want []string
+					for _, k := range m.sortedKeys() {
+						if bytes.HasPrefix([]byte(k), key) {
+							want = append(want, k)
+						}
+					}
+					if len(got) != len(want) {
+						return false
+					}
+					for i := range want {
+						if string(got[i].Key) != want[i] || !bytes.Equal(got[i].Value, m[want[i]]) {
+							return false
+						}
+					}
+					return true
+				}
+				workingTree := sameAs(model[q.St])
+				if !hist.retained[h] {
+					if len(got) > 0 {
+						if workingTree && c.Known(subSig) {
+							continue
+						}
+						sig := "C14/data-for-unreadable-height"
+						if workingTree {
+							sig = subSig
+						}
+						return violf(sig, "%s: height %d is %s but the subspace query returned %d pairs", desc, h,
+							map[bool]string{true: "in the future / not committed", false: "pruned"}[h > latest || h == 0], len(got))
+					}
+					c.Label("subspace-unreadable-height")
+					continue
+				}
+				if resp.Code != 0 {
+					return violf("C14/query-failed", "%s failed for a retained height: code=%d log=%s", desc, resp.Code, resp.Log)
+				}
+				var want []string
+				for _, k := range hist.snaps[h][q.St].sortedKeys() {
+					if bytes.HasPrefix([]byte(k), key) {
+						want = append(want, k)
+					}
+				}
+				ok := sameAs(hist.snaps[h][q.St])
+				if !ok && workingTree {
+					if c.Known(subSig) {
+						continue
+					}
+					return violf(subSig, "%s (block open=%v): the subspace query lists the working tree instead of what was committed at height %d", desc, blockOpen, h)
+				}
+				if !ok {
+					var gs []string
+					for _, kv := range got {
+						gs = append(gs, fmt.Sprintf("%x=%x", kv.Key, kv.Value))
+					}
+					var ws []string
+					for _, k := range want {
+						ws = append(ws, fmt.Sprintf("%x=%x", k, hist.snaps[h][q.St][k]))
+					}
+					return violf("C14/subspace-wrong-content", "%s (block open=%v): returned %v, committed at height %d under that prefix: %v", desc, blockOpen, gs, h, ws)
+				}
+				c.Label("subspace-query")
+				if blockOpen {
+					c.Label("subspace-query-with-uncommitted-writes")
+				}
+				continue
 			}
 			if storeName == "nosuchstore" || q.Path != "" {
 				if resp.Code == 0 || resp.Value != nil {
